@@ -3,6 +3,11 @@ import json, os
 V = '/verif'
 PENDING = "check not built yet in this session (work in progress; see DESIGN.md §12)"
 CHECKS = {
+ "C13": dict(
+    text="Lean theorems over the full multi-server timed failover machine (all histories of calls, failures and clock values, any number of servers, rt<dt): C13_le_two_per_rt_window, C13_le_ra_plus_two_per_dt_window (+ sliding form), C13_single_failure_keeps_rotation, C13_no_internal_error, C13_healthy_never_bypassed, C13_rerouted_while_out, C13_only_server_error_or_all_down_escapes, C13_nothing_escapes_with_ignore_exc, C13_recovery, C13_recovery_placement; the set_many+ignore_exc defect is proved as a counterexample and excluded by hypothesis (open finding). Tied to /repo by breadth-first exploration (state de-duplication) of the real HashClient with scripted clients and a virtual clock, every step compared with the model, plus a sliding-window monitor on the real contact log.",
+    note="partial: integer ticks constant during a call; 'failing' = OSError; routing abstracted to a preference order (rendezvous choice is C11/C12); broadcast ops (flush_all/stats/quit) are outside the property (key-addressed calls) — see DESIGN.md findings.",
+    technique="Lean 4 proof (simulation of the multi-server machine onto a single-server timed automaton with ghost contact lists; inductive invariants) + BFS correspondence",
+    ref="§6 C13"),
  "C14": dict(
     text="Lean theorems C14_murmurPy_eq_ref / C14_murmurPy_lt prove, for every string of byte code points of any length and every seed, that the transliterated Python arithmetic equals MurmurHash3_x86_32 (reference validated in-kernel by the SMHasher verification value and published vectors); the model is tied to /repo on each run by comparing murmur3_32 with the model and with the Lean reference on exhaustive short strings, all tail lengths/block counts and boundary seeds.",
     note="Lean kernel + propext/Classical.choice/Quot.sound; the hand-written model murmurPy is tied by differential runs only; strings < 2^32 code points; CPython int semantics.",
@@ -18,6 +23,11 @@ CHECKS = {
     note="Lean kernel + standard axioms; RECV_SIZE not modelled (a short recv is just another chunking); call-level independence is established by the reader theorems plus the metamorphic run on the real exchange loops; server sends non-negative sizes.",
     technique="Lean 4 proof (induction over the recv schedule, first-occurrence lemmas) + correspondence + metamorphic segmentation enumeration",
     ref="§6 C03"),
+ "C08": dict(
+    text="Lean theorems over a micro-step interleaving model of ObjectPool (any number of threads, any programs over use/fail/quit/clear, every interleaving, every reachable state): C08_mutex, C08_held_by_at_most_one, C08_no_duplicates_and_capacity, C08_no_internal_error, C08_no_deadlock, C08_quiescent_accounting, C08_closed_at_most_once; the socket-leak clause is proved only as C08_no_socket_leak_partial (no clear() racing with a holder) with the counterexample schedule proved (open finding). Tied to /repo by (K) exact event-sequence equality of every sequential branch of the real pool with the model and (S) a deterministic scheduler that explores pre-emption-bounded interleavings of real threads over the real pool.py, judges the invariants on the real objects and validates every interleaved event trace as a run of the model.",
+    note="partial: interleaving granularity is the source line (opcodes sampled), the GIL and threading.Lock are trusted; the scheduler is search support and trace source, not a proof; open finding C08-clear-vs-holder.",
+    technique="Lean 4 proof (18-conjunct inductive invariant over micro-steps, deadlock-freedom) + trace correspondence + bounded deterministic scheduling of the real code",
+    ref="§6 C08"),
  "C11": dict(
     text="Lean theorems (C11_getNode_eq_some_iff, C11_getNode_set_ext/perm, C11_getNode_history_indep, C11_remove_moves_only_owner, C11_add_moves_only_to_new, spelling equivalences) hold for an arbitrary score function (so also under forced ties), any node list and any add/remove history; tied to /repo by differential runs of RendezvousHash.get_node against the model (murmur, constant and two-valued hashes), all permutations of small node sets, random histories, HashClient through the client_class seam with equivalent spellings, and fresh interpreters with different PYTHONHASHSEED. 'Spread' is measured, not proved.",
     note="Lean kernel + standard axioms; score is a parameter (murmur3 correctness is C14); str order = code-point order; spelling equivalence modelled for the constructor path and decimal ports; spread is statistical (partial).",
